@@ -188,6 +188,7 @@ type c06Shape struct {
 	combo       bool // generated combination of several credentials
 	routeProbe  bool // combination that is also sent through every route (the others only to checkAuth)
 	denySweep   bool // probed under every deny list of the enumeration
+	ipSweep     bool // (prefix length, peer position) family of IP-restricted certificates: own loops
 }
 
 // key fingerprints as the model sees them: small numbers
@@ -353,7 +354,72 @@ func c06Tok(trusted, alg, tampered, iss, aud bool, kind int, nbf, exp, iat int64
 
 type c06Chain struct{ len2, role, trusted bool }
 
-func c06TLS(chains []c06Chain, cn int, denied bool, nb int64, ipErr, ipValid, automation bool) string {
+// the address side of a presented certificate as the model sees it (Coq terms): did a library step in
+// front of the netblock arithmetic fail, the decoded address delegation extension, the TCP peer
+type c06IP struct {
+	err       bool
+	ext, peer string
+}
+
+const c06DefaultRemote = "10.1.2.3:34567" // verifNewRequest
+
+var c06NoIP = c06IP{ext: "None", peer: c06PeerCoq(c06DefaultRemote)}
+
+// a netblock: base address and prefix length
+type c06Block struct {
+	base uint32
+	p    int
+}
+
+func (b c06Block) String() string {
+	return fmt.Sprintf("%d.%d.%d.%d/%d", b.base>>24, b.base>>16&255, b.base>>8&255, b.base&255, b.p)
+}
+
+func (b c06Block) ipnet() net.IPNet { return mustCIDR(b.String()) }
+
+// the property's own notion of "inside", in numbers: the peer and the block agree on the leading p bits
+// (written without net.IPNet and without the code under test)
+func (b c06Block) holds(addr uint32) bool {
+	if b.p == 0 {
+		return true
+	}
+	return addr>>uint(32-b.p) == b.base>>uint(32-b.p)
+}
+
+func c06ExtCoq(blocks []c06Block) string {
+	var xs []string
+	for _, b := range blocks {
+		xs = append(xs, fmt.Sprintf("blk %d %d %d %d %d", b.base>>24, b.base>>16&255, b.base>>8&255, b.base&255, b.p))
+	}
+	return "(xext [" + strings.Join(xs, "; ") + "])"
+}
+
+func c06V4(a uint32) string { return fmt.Sprintf("%d.%d.%d.%d", a>>24, a>>16&255, a>>8&255, a&255) }
+
+// the host of a RemoteAddr as net.ParseIP sees it (library parsing stays in front of the model)
+func c06PeerCoq(remote string) string {
+	host, _, err := net.SplitHostPort(remote)
+	if err != nil {
+		return "pgarbage"
+	}
+	ip := net.ParseIP(host)
+	if ip == nil {
+		return "pgarbage"
+	}
+	if v4 := ip.To4(); v4 != nil {
+		return fmt.Sprintf("(p4 %d %d %d %d)", v4[0], v4[1], v4[2], v4[3])
+	}
+	return "p6"
+}
+
+func c06IPOf(blocks []c06Block, remote string) c06IP {
+	if remote == "" {
+		remote = c06DefaultRemote
+	}
+	return c06IP{ext: c06ExtCoq(blocks), peer: c06PeerCoq(remote)}
+}
+
+func c06TLS(chains []c06Chain, cn int, denied bool, nb int64, ip c06IP, automation bool) string {
 	key := c06KeyMain
 	if denied {
 		key = c06KeyDenied
@@ -362,8 +428,8 @@ func c06TLS(chains []c06Chain, cn int, denied bool, nb int64, ipErr, ipValid, au
 	for _, c := range chains {
 		cs = append(cs, fmt.Sprintf("{| ch_len2 := %s; ch_role_ca := %s; ch_key_trusted := %s |}", coqBool(c.len2), coqBool(c.role), coqBool(c.trusted)))
 	}
-	return fmt.Sprintf("(Some {| x_chains := [%s]; x_cn := %d; x_key := %d; x_nb := %s; x_ip_error := %s; x_ip_valid := %s; x_auto_error := false; x_automation := %s; x_revoked := false |})",
-		strings.Join(cs, "; "), cn, key, coqZ(nb), coqBool(ipErr), coqBool(ipValid), coqBool(automation))
+	return fmt.Sprintf("(Some {| x_chains := [%s]; x_cn := %d; x_key := %d; x_nb := %s; x_ip_error := %s; x_ext := %s; x_peer := %s; x_auto_error := false; x_automation := %s; x_revoked := false |})",
+		strings.Join(cs, "; "), cn, key, coqZ(nb), coqBool(ip.err), ip.ext, ip.peer, coqBool(automation))
 }
 
 func c06Shapes(env *verifEnv, m *c06Material) []c06Shape {
@@ -484,74 +550,173 @@ func c06Shapes(env *verifEnv, m *c06Material) []c06Shape {
 	mainCh := []c06Chain{{true, false, true}}
 	roleCh := []c06Chain{{true, true, true}}
 	leafAlice, chAlice := verifClientChain(mainCA, st.Signer, "alice", nb, &m.keys.ec.PublicKey, nil)
-	cert(c06Shape{name: "cert-km-alice", class: "cert-km", core: true, denySweep: true, tls: c06TLS(mainCh, 1, false, now-300, false, false, false), certUser: "alice", kmCert: true}, chAlice, "", [2]string{})
-	cert(c06Shape{name: "cert-km-alice-1chain", class: "cert-1chain", tls: c06TLS([]c06Chain{{false, false, false}}, 1, false, now-300, false, false, false), certUser: "alice"},
+	cert(c06Shape{name: "cert-km-alice", class: "cert-km", core: true, denySweep: true, tls: c06TLS(mainCh, 1, false, now-300, c06NoIP, false), certUser: "alice", kmCert: true}, chAlice, "", [2]string{})
+	cert(c06Shape{name: "cert-km-alice-1chain", class: "cert-1chain", tls: c06TLS([]c06Chain{{false, false, false}}, 1, false, now-300, c06NoIP, false), certUser: "alice"},
 		[][]*x509.Certificate{{leafAlice}}, "", [2]string{})
 	_, chAdmin := verifClientChain(mainCA, st.Signer, "admin", nb, &m.keys.ec.PublicKey, nil)
-	cert(c06Shape{name: "cert-km-admin", class: "cert-km-admin", denySweep: true, tls: c06TLS(mainCh, 3, false, now-300, false, false, false), certUser: "admin", kmCert: true}, chAdmin, "", [2]string{})
+	cert(c06Shape{name: "cert-km-admin", class: "cert-km-admin", denySweep: true, tls: c06TLS(mainCh, 3, false, now-300, c06NoIP, false), certUser: "admin", kmCert: true}, chAdmin, "", [2]string{})
 	_, chAuto := verifClientChain(mainCA, st.Signer, "autoadm", nb, &m.keys.ec.PublicKey, nil)
-	cert(c06Shape{name: "cert-km-autoadm", class: "cert-km-autoadm", tls: c06TLS(mainCh, 5, false, now-300, false, false, false), certUser: "autoadm", kmCert: true}, chAuto, "", [2]string{})
+	cert(c06Shape{name: "cert-km-autoadm", class: "cert-km-autoadm", tls: c06TLS(mainCh, 5, false, now-300, c06NoIP, false), certUser: "autoadm", kmCert: true}, chAuto, "", [2]string{})
 	{
 		leaf, _ := verifClientChain(m.foreignCA.Raw, m.foreignKey, "alice", nb, &m.keys.ec.PublicKey, nil)
-		cert(c06Shape{name: "cert-foreign-ca", class: "cert-foreign", tls: c06TLS([]c06Chain{{true, false, false}}, 1, false, now-300, false, false, false), certUser: "alice"},
+		cert(c06Shape{name: "cert-foreign-ca", class: "cert-foreign", tls: c06TLS([]c06Chain{{true, false, false}}, 1, false, now-300, c06NoIP, false), certUser: "alice"},
 			[][]*x509.Certificate{{leaf, m.foreignCA}}, "", [2]string{})
 		// a client CA the TLS layer trusts (the admin CA is in the service port's pool) that is not a keymaster key
 		leaf2, _ := verifClientChainRSA(env, "admin", nb, &m.keys.ec.PublicKey)
 		if leaf2 != nil {
-			cert(c06Shape{name: "cert-admin-ca", class: "cert-foreign", tls: c06TLS([]c06Chain{{true, false, false}}, 3, false, now-300, false, false, false), certUser: "admin"},
+			cert(c06Shape{name: "cert-admin-ca", class: "cert-foreign", tls: c06TLS([]c06Chain{{true, false, false}}, 3, false, now-300, c06NoIP, false), certUser: "admin"},
 				[][]*x509.Certificate{{leaf2, env.adminCA}}, "", [2]string{})
 		}
 	}
 	_, chDenied := verifClientChain(mainCA, st.Signer, "alice", nb, &m.deniedKeys.ec.PublicKey, nil)
-	cert(c06Shape{name: "cert-km-denied-key", class: "cert-km", core: true, denySweep: true, tls: c06TLS(mainCh, 1, true, now-300, false, false, false), certUser: "alice", kmCert: true, keyID: c06KeyDenied}, chDenied, "", [2]string{})
+	cert(c06Shape{name: "cert-km-denied-key", class: "cert-km", core: true, denySweep: true, tls: c06TLS(mainCh, 1, true, now-300, c06NoIP, false), certUser: "alice", kmCert: true, keyID: c06KeyDenied}, chDenied, "", [2]string{})
 	_, chEmpty := verifClientChain(mainCA, st.Signer, "", nb, &m.keys.ec.PublicKey, nil)
-	cert(c06Shape{name: "cert-km-empty-cn", class: "cert-empty-cn", tls: c06TLS(mainCh, 0, false, now-300, false, false, false)}, chEmpty, "", [2]string{})
+	cert(c06Shape{name: "cert-km-empty-cn", class: "cert-empty-cn", tls: c06TLS(mainCh, 0, false, now-300, c06NoIP, false)}, chEmpty, "", [2]string{})
 	// multi-chain connection states (same leaf, several verified paths)
-	cert(c06Shape{name: "cert-km-alice-chains-1+2", class: "cert-km", tls: c06TLS([]c06Chain{{false, false, false}, {true, false, true}}, 1, false, now-300, false, false, false), certUser: "alice", kmCert: true},
+	cert(c06Shape{name: "cert-km-alice-chains-1+2", class: "cert-km", tls: c06TLS([]c06Chain{{false, false, false}, {true, false, true}}, 1, false, now-300, c06NoIP, false), certUser: "alice", kmCert: true},
 		[][]*x509.Certificate{{leafAlice}, {leafAlice, mainCACert}}, "", [2]string{})
-	cert(c06Shape{name: "cert-km-alice-chains-foreign+main", class: "cert-km", denySweep: true, tls: c06TLS([]c06Chain{{true, false, false}, {true, false, true}}, 1, false, now-300, false, false, false), certUser: "alice", kmCert: true},
+	cert(c06Shape{name: "cert-km-alice-chains-foreign+main", class: "cert-km", denySweep: true, tls: c06TLS([]c06Chain{{true, false, false}, {true, false, true}}, 1, false, now-300, c06NoIP, false), certUser: "alice", kmCert: true},
 		[][]*x509.Certificate{{leafAlice, m.foreignCA}, {leafAlice, mainCACert}}, "", [2]string{})
-	cert(c06Shape{name: "cert-km-alice-chains-role+main", class: "cert-km", tls: c06TLS([]c06Chain{{true, true, true}, {true, false, true}}, 1, false, now-300, false, false, false), certUser: "alice", kmCert: true},
+	cert(c06Shape{name: "cert-km-alice-chains-role+main", class: "cert-km", tls: c06TLS([]c06Chain{{true, true, true}, {true, false, true}}, 1, false, now-300, c06NoIP, false), certUser: "alice", kmCert: true},
 		[][]*x509.Certificate{{leafAlice, roleCACert}, {leafAlice, mainCACert}}, "", [2]string{})
 	// IP-restricted automation certificates (role CA), 10.0.0.0/8
 	ten := []net.IPNet{mustCIDR("10.0.0.0/8")}
 	chIP := env.ipRestrictedChain("svc-automation", ten, &m.keys.ec.PublicKey)
 	ipNB := chIP[0][0].NotBefore.Unix()
-	ipShape := func(name, class string, valid, core bool) c06Shape {
-		return c06Shape{name: name, class: class, core: core, tls: c06TLS(roleCh, 4, false, ipNB, false, valid, true), certUser: "svc-automation", ipCert: valid}
+	tenB := []c06Block{{10 << 24, 8}}
+	ipShape := func(name, class, remote string, valid, core bool, hdr [2]string) {
+		cert(c06Shape{name: name, class: class, core: core, tls: c06TLS(roleCh, 4, false, ipNB, c06IPOf(tenB, remote), true), certUser: "svc-automation", ipCert: valid},
+			chIP, remote, hdr)
 	}
-	cert(ipShape("cert-ip-inside", "cert-ip-inside", true, true), chIP, "10.1.2.3:4711", [2]string{})
-	cert(ipShape("cert-ip-outside", "cert-ip-outside", false, true), chIP, "192.168.1.1:4711", [2]string{})
-	cert(ipShape("cert-ip-outside-xff", "cert-ip-outside", false, false), chIP, "192.0.2.7:4711", [2]string{"X-Forwarded-For", "10.1.2.3"})
-	cert(ipShape("cert-ip-loopback", "cert-ip-outside", false, false), chIP, "127.0.0.1:4711", [2]string{})
-	cert(ipShape("cert-ip-loopback-xff", "cert-ip-outside", false, false), chIP, "127.0.0.1:4711", [2]string{"X-Forwarded-For", "10.1.2.3"})
-	cert(ipShape("cert-ip-loopback-xrealip", "cert-ip-outside", false, false), chIP, "127.0.0.1:4711", [2]string{"X-Real-Ip", "10.1.2.3"})
-	cert(ipShape("cert-ip-loopback6-forwarded", "cert-ip-outside", false, false), chIP, "[::1]:4711", [2]string{"Forwarded", "for=10.1.2.3"})
+	ipShape("cert-ip-inside", "cert-ip-inside", "10.1.2.3:4711", true, true, [2]string{})
+	ipShape("cert-ip-outside", "cert-ip-outside", "192.168.1.1:4711", false, true, [2]string{})
+	ipShape("cert-ip-outside-xff", "cert-ip-outside", "192.0.2.7:4711", false, false, [2]string{"X-Forwarded-For", "10.1.2.3"})
+	ipShape("cert-ip-loopback", "cert-ip-outside", "127.0.0.1:4711", false, false, [2]string{})
+	ipShape("cert-ip-loopback-xff", "cert-ip-outside", "127.0.0.1:4711", false, false, [2]string{"X-Forwarded-For", "10.1.2.3"})
+	ipShape("cert-ip-loopback-xrealip", "cert-ip-outside", "127.0.0.1:4711", false, false, [2]string{"X-Real-Ip", "10.1.2.3"})
+	ipShape("cert-ip-loopback6-forwarded", "cert-ip-outside", "[::1]:4711", false, false, [2]string{"Forwarded", "for=10.1.2.3"})
 	chIPAlice := env.ipRestrictedChain("alice", ten, &m.keys.ec.PublicKey)
-	cert(c06Shape{name: "cert-ip-inside-not-automation", class: "cert-ip-not-automation", tls: c06TLS(roleCh, 1, false, chIPAlice[0][0].NotBefore.Unix(), false, true, false), certUser: "alice"},
+	cert(c06Shape{name: "cert-ip-inside-not-automation", class: "cert-ip-not-automation", tls: c06TLS(roleCh, 1, false, chIPAlice[0][0].NotBefore.Unix(), c06IPOf(tenB, "10.1.2.3:4711"), false), certUser: "alice"},
 		chIPAlice, "10.1.2.3:4711", [2]string{})
 	// hypothetical: the address extension inside a certificate issued by the MAIN CA
 	if ext, err := c06DelegationExt(ten); err == nil {
 		_, chBoth := verifClientChain(mainCA, st.Signer, "svc-automation", nb, &m.keys.ec.PublicKey, []pkix.Extension{ext})
-		cert(c06Shape{name: "cert-main-ca-with-ext-inside", class: "cert-km+ip", tls: c06TLS(mainCh, 4, false, now-300, false, true, true), certUser: "svc-automation", kmCert: true, ipCert: true},
+		cert(c06Shape{name: "cert-main-ca-with-ext-inside", class: "cert-km+ip", tls: c06TLS(mainCh, 4, false, now-300, c06IPOf(tenB, "10.1.2.3:4711"), true), certUser: "svc-automation", kmCert: true, ipCert: true},
 			chBoth, "10.1.2.3:4711", [2]string{})
-		cert(c06Shape{name: "cert-main-ca-with-ext-outside", class: "cert-km", tls: c06TLS(mainCh, 4, false, now-300, false, false, true), certUser: "svc-automation", kmCert: true},
+		cert(c06Shape{name: "cert-main-ca-with-ext-outside", class: "cert-km", tls: c06TLS(mainCh, 4, false, now-300, c06IPOf(tenB, "192.168.1.1:4711"), true), certUser: "svc-automation", kmCert: true},
 			chBoth, "192.168.1.1:4711", [2]string{})
 		// a corrupted extension (bit string longer than an address) signed by the role CA
 		bad, _ := asn1.Marshal([]certgen.IpAdressFamily{{AddressFamily: []byte{0, 1, 1}, Addresses: []asn1.BitString{{Bytes: []byte{10, 0, 0, 0, 0}, BitLength: 40}}}})
 		_, chBad := verifClientChain(st.selfRoleCaCertDer, st.Signer, "svc-automation", nb, &m.keys.ec.PublicKey, []pkix.Extension{{Id: ext.Id, Value: bad}})
-		cert(c06Shape{name: "cert-ip-corrupt-ext", class: "cert-ip-corrupt", tls: c06TLS(roleCh, 4, false, now-300, true, false, true), certUser: "svc-automation"},
+		cert(c06Shape{name: "cert-ip-corrupt-ext", class: "cert-ip-corrupt", tls: c06TLS(roleCh, 4, false, now-300, c06IP{ext: "(Some [(IPExt.ipv4_family, [([10; 0; 0; 0; 0], 40)])])", peer: c06PeerCoq("10.1.2.3:4711")}, true), certUser: "svc-automation"},
 			chBad, "10.1.2.3:4711", [2]string{})
 	}
 	// certificate and session together (the certificate branch comes first)
 	{
 		v := env.sessionJWT("alice", lvl, now-60, now-60, now+7200)
-		cert(c06Shape{name: "cert-km-admin+cookie-alice", class: "cert-km-admin", tls: c06TLS(mainCh, 3, false, now-300, false, false, false),
+		cert(c06Shape{name: "cert-km-admin+cookie-alice", class: "cert-km-admin", tls: c06TLS(mainCh, 3, false, now-300, c06NoIP, false),
 			cred: c06Token(true, true, false, true, true, 0, now-60, now+7200, now-60, 1, lvl), certUser: "admin", kmCert: true,
 			cookieValid: true, cookieUser: "alice", cookieLevel: lvl, apply: func(r *http.Request) { r.AddCookie(authCookie(v)) }}, chAdmin, "", [2]string{})
-		cert(c06Shape{name: "cert-ip-outside+cookie-alice", class: "cert-ip-outside+cookie", tls: c06TLS(roleCh, 4, false, ipNB, false, false, true),
+		cert(c06Shape{name: "cert-ip-outside+cookie-alice", class: "cert-ip-outside+cookie", tls: c06TLS(roleCh, 4, false, ipNB, c06IPOf(tenB, "192.168.1.1:4711"), true),
 			cred: c06Token(true, true, false, true, true, 0, now-60, now+7200, now-60, 1, lvl), certUser: "svc-automation",
 			cookieValid: true, cookieUser: "alice", cookieLevel: lvl, apply: func(r *http.Request) { r.AddCookie(authCookie(v)) }}, chIP, "192.168.1.1:4711", [2]string{})
+	}
+	// ---- IP-restricted certificates: (prefix length, peer position).  Prefixes that end inside an octet
+	// as well as aligned ones; peers inside (first, last, some address of the block, IPv4-mapped), just
+	// outside (first address above, last below), outside but sharing every whole leading octet of the
+	// prefix (the remaining bits of the partial octet differ), outside in the last whole octet, far away,
+	// IPv6 (also one whose leading bytes are the block's), IPv4-mapped outside.  "Inside" for the oracle is
+	// c06Block.holds (numbers); for the model it is IPExt.verify_families on (extension, peer).
+	{
+		rng := verifRand()
+		prefixes := []int{0, 1, 7, 8, 9, 12, 16, 20, 23, 24, 26, 31, 32}
+		if verifThorough() {
+			prefixes = nil
+			for p := 0; p <= 32; p++ {
+				prefixes = append(prefixes, p)
+			}
+		}
+		type peerT struct {
+			pos    string // position class
+			addr   uint32
+			remote string
+		}
+		addShapes := func(tag string, blocks []c06Block, chain [][]*x509.Certificate, peers []peerT) {
+			nbU := chain[0][0].NotBefore.Unix()
+			for _, pe := range peers {
+				inside := false
+				if pe.pos != "v6" && pe.pos != "v6-same-leading-bytes" {
+					for _, b := range blocks {
+						if b.holds(pe.addr) {
+							inside = true
+						}
+					}
+				}
+				class := "cert-ip-outside-" + pe.pos
+				if inside {
+					class = "cert-ip-inside"
+				}
+				if inside != strings.HasPrefix(pe.pos, "inside") { // the generator's label and the arithmetic (both the harness's own) agree
+					panic(fmt.Sprintf("C06 harness: peer %s labelled %s for %s", pe.remote, pe.pos, tag))
+				}
+				cert(c06Shape{name: fmt.Sprintf("cert-ip%s-from-%s(%s)", tag, pe.remote, pe.pos), class: class, ipSweep: true,
+					tls: c06TLS(roleCh, 4, false, nbU, c06IPOf(blocks, pe.remote), true), certUser: "svc-automation", ipCert: inside}, chain, pe.remote, [2]string{})
+			}
+		}
+		v4 := func(pos string, a uint32) peerT { return peerT{pos, a, c06V4(a) + ":4711"} }
+		mapped := func(pos string, a uint32) peerT { return peerT{pos, a, "[::ffff:" + c06V4(a) + "]:4711"} }
+		for _, p := range prefixes {
+			var hostMask uint32 = 0xffffffff
+			if p > 0 {
+				hostMask = uint32(uint64(1)<<uint(32-p) - 1)
+			}
+			base := rng.Uint32() &^ hostMask
+			if p >= 1 {
+				base |= 1 << 31 // keep "far" (top bit flipped) and the wrap-around cases apart
+				if p >= 2 {
+					base &^= 1 << 30 // not 255.x: the first address above exists
+				}
+			}
+			base &^= hostMask
+			blk := c06Block{base, p}
+			last := base | hostMask
+			host := func() uint32 { return rng.Uint32() & hostMask }
+			peers := []peerT{v4("inside-first", base), v4("inside-last", last), v4("inside", base|host()), mapped("inside-v4mapped", base|host())}
+			if last != 0xffffffff {
+				peers = append(peers, v4("above", last+1))
+			}
+			if base != 0 {
+				peers = append(peers, v4("below", base-1))
+			}
+			if p%8 != 0 {
+				hi, lo := uint(31-8*(p/8)), uint(32-p) // highest and lowest prefix bit of the partial octet
+				peers = append(peers, v4("partial-octet", (base^(1<<lo))|host()))
+				if hi != lo {
+					peers = append(peers, v4("partial-octet", (base^(1<<hi))|host()))
+				}
+				peers = append(peers, mapped("partial-octet-v4mapped", (base^(1<<lo))|host()))
+			} else if p >= 8 {
+				peers = append(peers, v4("last-octet", (base^(1<<uint(32-p)))|host()))
+			}
+			if p >= 1 {
+				peers = append(peers, v4("far", (base^(1<<31))|(rng.Uint32()&0x7fffffff&hostMask)))
+				peers = append(peers, mapped("far-v4mapped", (base^(1<<31))|host()))
+			}
+			peers = append(peers, peerT{"v6", 0, "[2001:db8::7:1]:4711"},
+				peerT{"v6-same-leading-bytes", 0, fmt.Sprintf("[%x:%x::1]:4711", base>>16, base&0xffff)})
+			addShapes("["+blk.String()+"]", []c06Block{blk}, env.ipRestrictedChain("svc-automation", []net.IPNet{blk.ipnet()}, &m.keys.ec.PublicKey), peers)
+		}
+		// several netblocks in one certificate: the matching one is not the first, the others do not match
+		multi := []c06Block{{192<<24 | 168<<16 | 4<<8 | 64, 26}, {10<<24 | 20<<16 | 16<<8, 20}, {172<<24 | 16<<16, 12}}
+		var nets []net.IPNet
+		for _, b := range multi {
+			nets = append(nets, b.ipnet())
+		}
+		a4 := func(a, b, c, d uint32) uint32 { return a<<24 | b<<16 | c<<8 | d }
+		addShapes("[3 blocks]", multi, env.ipRestrictedChain("svc-automation", nets, &m.keys.ec.PublicKey), []peerT{
+			v4("inside", a4(192, 168, 4, 100)), v4("inside", a4(10, 20, 31, 9)), v4("inside", a4(172, 31, 255, 254)),
+			v4("partial-octet", a4(192, 168, 4, 130)), v4("partial-octet", a4(192, 168, 4, 7)), v4("partial-octet", a4(10, 20, 40, 7)), v4("partial-octet", a4(10, 20, 0, 1)),
+			v4("partial-octet", a4(172, 32, 0, 1)), v4("partial-octet", a4(172, 0, 0, 1)), v4("last-octet", a4(192, 168, 5, 100)), v4("far", a4(8, 8, 8, 8))})
 	}
 	// ---- combinations: client certificate x auth_cookie x basic-auth header, each present or
 	// absent, valid or not, on one request.  Parts are combined mechanically; the precedence is
@@ -609,11 +774,11 @@ func c06Shapes(env *verifEnv, m *c06Material) []c06Shape {
 			apply: func(r *http.Request) { withTLS(r, chains, remote) }}
 	}
 	certs := []part{{name: "", coq: "None", route: true},
-		tlsPart("cert-km-alice", "cert-km", c06TLS(mainCh, 1, false, now-300, false, false, false), chAlice, "", "alice", true, c06KeyMain, false, true),
-		tlsPart("cert-km-admin", "cert-km-admin", c06TLS(mainCh, 3, false, now-300, false, false, false), chAdmin, "", "admin", true, c06KeyMain, false, false),
-		tlsPart("cert-km-denied-key", "cert-km", c06TLS(mainCh, 1, true, now-300, false, false, false), chDenied, "", "alice", true, c06KeyDenied, false, false),
-		tlsPart("cert-ip-inside", "cert-ip-inside", c06TLS(roleCh, 4, false, ipNB, false, true, true), chIP, "10.1.2.3:4711", "svc-automation", false, c06KeyMain, true, false),
-		tlsPart("cert-ip-outside", "cert-ip-outside", c06TLS(roleCh, 4, false, ipNB, false, false, true), chIP, "192.168.1.1:4711", "svc-automation", false, c06KeyMain, false, true)}
+		tlsPart("cert-km-alice", "cert-km", c06TLS(mainCh, 1, false, now-300, c06NoIP, false), chAlice, "", "alice", true, c06KeyMain, false, true),
+		tlsPart("cert-km-admin", "cert-km-admin", c06TLS(mainCh, 3, false, now-300, c06NoIP, false), chAdmin, "", "admin", true, c06KeyMain, false, false),
+		tlsPart("cert-km-denied-key", "cert-km", c06TLS(mainCh, 1, true, now-300, c06NoIP, false), chDenied, "", "alice", true, c06KeyDenied, false, false),
+		tlsPart("cert-ip-inside", "cert-ip-inside", c06TLS(roleCh, 4, false, ipNB, c06IPOf(tenB, "10.1.2.3:4711"), true), chIP, "10.1.2.3:4711", "svc-automation", false, c06KeyMain, true, false),
+		tlsPart("cert-ip-outside", "cert-ip-outside", c06TLS(roleCh, 4, false, ipNB, c06IPOf(tenB, "192.168.1.1:4711"), true), chIP, "192.168.1.1:4711", "svc-automation", false, c06KeyMain, false, true)}
 	for _, ce := range certs {
 		for _, ck := range cookies {
 			for _, ba := range basics {
@@ -1628,6 +1793,25 @@ func TestVerif_C06(t *testing.T) {
 				if s.formLogin && key != "runtimeState.loginHandler" {
 					continue
 				}
+				if s.ipSweep {
+					// the routes that hand signed material to IP-restricted certificates (thorough: every
+					// route whose mask has the bit), configuration A
+					if cfg.name != "A" || gate.kind != "mask" || (gate.mask != "any" && gate.mask != "ipcert") {
+						continue
+					}
+					if !thorough && key != "runtimeState.refreshRoleRequestingCertGenHandler" && key != "runtimeState.certGenHandler" {
+						continue
+					}
+					target := targets[0]
+					if key == "runtimeState.certGenHandler" {
+						target = "svc-automation"
+					}
+					probe(si, "POST", 0, target, false, 0)
+					if key == "runtimeState.refreshRoleRequestingCertGenHandler" || thorough {
+						probe(si, "GET", 0, target, false, 0)
+					}
+					continue
+				}
 				if s.combo {
 					// combinations: GET and same-site-less POST, first target; the quick tier sends the
 					// marked subset through the routes of the configurations that ask for it
@@ -1749,7 +1933,7 @@ func TestVerif_C06(t *testing.T) {
 	// ---- Coq
 	var sb strings.Builder
 	sb.WriteString(coqCaseHeader)
-	sb.WriteString("From KM Require Import Base.Cases Model.Auth Model.AuthGate Model.Routes Model.RouteCases.\nOpen Scope N_scope.\n")
+	sb.WriteString("From KM Require Import Base.Cases Model.Auth Model.AuthGate Model.Routes Model.RouteCases.\nFrom KM Require Model.IPExt.\nOpen Scope N_scope.\n")
 	sb.WriteString(fmt.Sprintf("Definition now : Z := %s.\n", coqZ(now)))
 	sb.WriteString("Definition shapes : list shape_t := [\n " + strings.Join(shapeCoq, ";\n ") + "].\n")
 	var denyCoq []string
@@ -1970,9 +2154,24 @@ func c06GateCases(p *c06Prober, thorough bool, cases, idx *[]string) {
 	comboMasks := []int{0, p.webui, p.webui | AuthTypeKeymasterX509, AuthTypeAny, AuthTypeIPCertificate, AuthTypeKeymasterX509, AuthTypePassword,
 		AuthTypePassword | AuthTypeKeymasterX509, AuthTypeU2F, AuthTypeU2F | AuthTypeIPCertificate, AuthTypeAny &^ AuthTypeKeymasterX509, AuthTypeTOTP | AuthTypeFederated}
 	denyMasks := []int{AuthTypeKeymasterX509, p.webui | AuthTypeKeymasterX509, AuthTypeAny, AuthTypeIPCertificate | AuthTypeKeymasterX509, AuthTypePassword | AuthTypeKeymasterX509}
+	ipMasks := []int{AuthTypeIPCertificate, AuthTypeAny, AuthTypeIPCertificate | AuthTypeKeymasterX509, p.webui | AuthTypeKeymasterX509}
 	for si := range p.shapes {
 		s := &p.shapes[si]
 		if s.formLogin {
+			continue
+		}
+		if s.ipSweep {
+			// (prefix length, peer position): the masks that take IP certificates, one that does not
+			ms := ipMasks
+			if thorough {
+				ms = masks
+			}
+			for _, mask := range ms {
+				call(si, mask, "POST", 0, 0)
+				if mask == AuthTypeIPCertificate || thorough {
+					call(si, mask, "GET", 0, 0)
+				}
+			}
 			continue
 		}
 		if s.combo {
